@@ -114,7 +114,7 @@ class AsgiHttpPeer:
     def __init__(self, loop, ctx, tape, req, script=None, *, zerocopy=False, raise_after_disconnect=False,
                  disconnect_time=None, disconnect_after_sends=None, send_raise_at=None,
                  send_lats=SEND_LATS, recv_lat_extra=(0.0,), extensions=None, surface="asgi",
-                 complete_disconnects=True, recv_raises_after_script=False, alias_equal_events=False):
+                 complete_disconnects=True, recv_raises_after_script=False, alias_equal_events=False, send_stall_from=None):
         self.loop = loop
         self.ctx = ctx
         self.tape = tape
@@ -138,6 +138,7 @@ class AsgiHttpPeer:
         self.recv_calls = 0
         self.recv_returns = []      # (vtime, type, consumer-task-name)
         self.recv_after_disconnect = 0
+        self.busy_polling = False
         self.disconnected = loop.create_future()
         self.t_disconnect = None
         self.disc_why = None
@@ -147,6 +148,8 @@ class AsgiHttpPeer:
         self.raise_after_disconnect = raise_after_disconnect
         self.disconnect_after_sends = disconnect_after_sends
         self.send_raise_at = send_raise_at
+        self.send_stall_from = send_stall_from     # the client stops reading: this send() call and every later one never completes
+        self.stalled = loop.create_future()
         self.send_lats = send_lats
         self.recv_lat_extra = recv_lat_extra
         self.complete_disconnects = complete_disconnects
@@ -187,6 +190,11 @@ class AsgiHttpPeer:
         self.recv_calls += 1
         if self.disconnect_delivered:
             self.recv_after_disconnect += 1
+            if self.recv_after_disconnect > 5000:
+                # the application keeps asking although it was told the client is gone: a busy loop that never lets the event loop run
+                from .loop import SimStepLimit
+                self.busy_polling = True
+                raise SimStepLimit("receive() called %d times after the disconnect had been delivered" % self.recv_after_disconnect)
         async with self.recv_lock:
             msg = None
             if self.pos < len(self.script):
@@ -277,6 +285,11 @@ class AsgiHttpPeer:
         if self.send_raise_at is not None and idx == self.send_raise_at:
             self.ctx.fault("send_raises")
             raise InjectedSendError("injected send failure at call %d" % idx)
+        if self.send_stall_from is not None and idx >= self.send_stall_from:
+            self.ctx.fault("client_stops_reading")
+            if not self.stalled.done():
+                self.stalled.set_result(round(self.loop.time(), 6))
+            await self.loop.create_future()
         lat = self.send_lats[self.tape.draw(len(self.send_lats))]
         if lat:
             self.ctx.fault("send_backpressure")
